@@ -30,7 +30,8 @@ type Case struct {
 	Start *int64 `json:"start"` // slice form
 	Stop  *int64 `json:"stop"`
 	Step  *int64 `json:"step"`
-	Route string `json:"route"` // ast | source | aged
+	Typed bool   `json:"typed,omitempty"` // index / bounds / step are typed Int descendants (Int.bear.new(v)) instead of plain ints
+	Route string `json:"route"`           // ast | source | aged
 	// aged route: statements that use the receiver `r` (and values derived from it) before it is indexed
 	Pre  []string `json:"pre,omitempty"`
 	Got  string   `json:"got,omitempty"`
@@ -129,11 +130,27 @@ func source(c Case) string {
 	return recvSrc(c) + indexSrc(c)
 }
 
+var intChildProto = object.NewPanObj(&map[object.SymHash]object.Pair{}, object.BuiltInIntObj)
+
 func toObj(p *int64) object.PanObject {
 	if p == nil {
 		return object.BuiltInNil
 	}
 	return object.NewPanInt(*p)
+}
+
+func intObj(c Case, v int64) object.PanObject {
+	if c.Typed {
+		return object.NewInheritedInt(intChildProto, v)
+	}
+	return object.NewPanInt(v)
+}
+
+func boundObj(c Case, p *int64) object.PanObject {
+	if p == nil {
+		return object.BuiltInNil
+	}
+	return intObj(c, *p)
 }
 
 func eval(c Case) interp.Outcome {
@@ -144,9 +161,9 @@ func eval(c Case) interp.Outcome {
 	env := object.NewEnclosedEnv(in.Global)
 	interp.Bind(env, "r", recvObj(c))
 	if c.Form == "index" {
-		interp.Bind(env, "i", object.NewPanInt(c.I))
+		interp.Bind(env, "i", intObj(c, c.I))
 	} else {
-		interp.Bind(env, "i", object.NewPanRange(toObj(c.Start), toObj(c.Stop), toObj(c.Step)))
+		interp.Bind(env, "i", object.NewPanRange(boundObj(c, c.Start), boundObj(c, c.Stop), boundObj(c, c.Step)))
 	}
 	for _, st := range c.Pre {
 		in.Run(st, interp.Opts{Env: env})
@@ -271,6 +288,14 @@ func stepClass(c Case) string {
 }
 
 func judge(c *Case, o interp.Outcome) (sig, detail string) {
+	if o.Kind == interp.Fuel {
+		vt.Discard("the evaluation ran out of its budget (inconclusive)")
+		return "", ""
+	}
+	return judgeRaw(c, o)
+}
+
+func judgeRaw(c *Case, o interp.Outcome) (sig, detail string) {
 	c.Got = o.Show()
 	bad := func(class string) (string, string) {
 		return c.Kind + ":" + class, fmt.Sprintf("%s [%s route] gave %s, want %s", source(*c), c.Route, c.Got, c.Want)
@@ -347,7 +372,7 @@ func nontrivial(c Case) bool {
 }
 
 func key(c Case) string {
-	return fmt.Sprintf("%s|%d|%s|%d|%s|%s|%s|%s", c.Kind, c.N, c.Form, c.I, opt(c.Start), opt(c.Stop), opt(c.Step), c.Route)
+	return fmt.Sprintf("%s|%d|%s|%d|%s|%s|%s|%s|%v", c.Kind, c.N, c.Form, c.I, opt(c.Start), opt(c.Stop), opt(c.Step), c.Route, c.Typed)
 }
 
 func run(t vt.Failer, c Case, fatal bool) {
@@ -407,6 +432,9 @@ func TestExhaustiveWindow(t *testing.T) {
 					}
 					for _, stp := range bs {
 						run(t, Case{Kind: kind, N: n, Form: "slice", Start: st, Stop: sp, Step: stp, Route: "ast"}, false)
+						if stp != nil && *stp >= -1 && *stp <= 1 && n <= 3 {
+							run(t, Case{Kind: kind, N: n, Form: "slice", Start: st, Stop: sp, Step: stp, Route: "ast", Typed: true}, false)
+						}
 					}
 				}
 			}
@@ -456,7 +484,12 @@ func genCase(route string, maxN int) *rapid.Generator[Case] {
 func TestRandomLongAST(t *testing.T) {
 	vt.Check(t, vt.N(60000, 6000000), func(rt *rapid.T) {
 		vt.Class("random ast")
-		run(rt, genCase("ast", 40).Draw(rt, "case"), true)
+		c := genCase("ast", 40).Draw(rt, "case")
+		if rapid.IntRange(0, 3).Draw(rt, "typed bounds") == 0 {
+			c.Typed = true
+			vt.Class("index / bounds / step are typed Int descendants")
+		}
+		run(rt, c, true)
 	})
 }
 
